@@ -394,6 +394,18 @@ example : ionicStrength [(1 : ℝ), 1] [2, -1] true = .ok (5 / 2, true) := by
   rw [h]
   simp [sumTot]; norm_num
 
+/-- the docstring example `ionic_strength({'Mg+2': 6, 'PO4-3': 4})` satisfies the hypotheses of `ionic_strength_dict_spec` -/
+example : ionicStrengthDict [("Mg+2".toList, (6 : ℝ)), ("PO4-3".toList, 4)] true
+    = ionicStrength [(6 : ℝ), 4] [((2 : Int) : ℝ), ((-3 : Int) : ℝ)] true := by
+  have h := ionic_strength_dict_spec (fun k => if k = "Mg+2".toList then 2 else -3)
+    [("Mg+2".toList, (6 : ℝ)), ("PO4-3".toList, 4)] true (by simp) (by
+      intro kv hkv
+      simp only [List.mem_cons, List.not_mem_nil, or_false] at hkv
+      rcases hkv with rfl | rfl
+      · exact ⟨by decide, by decide, by decide +kernel⟩
+      · exact ⟨by decide, by decide, by decide +kernel⟩)
+  simpa using h
+
 /-- water at 20 °C lies in the domain of `A_paths_agree` / `B_paths_agree` -/
 example : |aConst (80.1 : ℝ) 293.15 998.2071 1 constFaraday constAvogadro constVacuumPermittivity constBoltzmann constPi
     / aNum 80.1 293.15 998.2071 1 - 1| < 1 / 10 ^ 14 :=
